@@ -574,3 +574,21 @@ Proof.
   apply in_app_or in Hx. destruct Hx as [Hx|[<-|[]]]; [apply H; exact Hx|].
   split; [exact Hc | reflexivity].
 Qed.
+
+(* ------------------------------------------------------------------ reductions of the whole-tree statement *)
+Lemma valid_leaves_both : forall t, valid t = true -> leaves_ok t = true /\ literal_leaves t = true.
+Proof. intros t H. split; [|apply leaves_ok_literal]; apply valid_leaves_b; exact H. Qed.
+
+(* lists_ok and leaves_ok are consequences of valid: the property's tree clause reduces to four *)
+Lemma structurally_valid_reduced : forall t,
+  structurally_valid t = (valid t && s2 t && headings_ok t && tables_ok t).
+Proof.
+  intro t. unfold structurally_valid. destruct (valid t) eqn:Hv; [|reflexivity].
+  rewrite (valid_list_children_b t Hv), (valid_leaves_b t Hv). cbn [andb].
+  rewrite !andb_true_r. reflexivity.
+Qed.
+
+Lemma parser_partial : forall parse : bytes -> node,
+  (forall input, valid (parse input) && s2 (parse input) && headings_ok (parse input) && tables_ok (parse input) = true) ->
+  forall input, structurally_valid (parse input) = true.
+Proof. intros parse H input. rewrite structurally_valid_reduced. apply H. Qed.
